@@ -9,8 +9,18 @@ import (
 	"sync"
 	"time"
 
+	"github.com/fluffle/goirc/logging"
 	"github.com/fluffle/goirc/state"
 )
+
+// fmtLogger formats every record as a real logger would: the tracker hands its internal objects to the
+// logger as %s arguments, so anything it logs outside its mutex is read here, under the race detector.
+type fmtLogger struct{}
+
+func (fmtLogger) Debug(f string, a ...interface{}) { _ = fmt.Sprintf(f, a...) }
+func (fmtLogger) Info(f string, a ...interface{})  { _ = fmt.Sprintf(f, a...) }
+func (fmtLogger) Warn(f string, a ...interface{})  { _ = fmt.Sprintf(f, a...) }
+func (fmtLogger) Error(f string, a ...interface{}) { _ = fmt.Sprintf(f, a...) }
 
 func main() {
 	seed := uint64(1)
@@ -23,6 +33,7 @@ func main() {
 		ms, _ := strconv.Atoi(os.Args[2])
 		dur = time.Duration(ms) * time.Millisecond
 	}
+	logging.SetLogger(fmtLogger{})
 	t := state.NewTracker("me")
 	nicks := []string{"me", "a", "b", "c", "d"}
 	chans := []string{"#x", "#y", "#z"}
